@@ -206,18 +206,20 @@ Section Model.
     add O (qf_constant eps c nb x) (mul O (sq cz) (norm2 x)).
   Definition qf_zeroth (c : T) (x : list T) : T := mul O (sq c) (norm2 x).
   (* pair (i,j) weighted by w_i^2 + w_j^2, w = the reported weights *)
-  Definition qf_weighted (eps : T) (w : list T) (nb : list (list nat)) (x : list T) : T :=
-    add O (sumT (map (fun p => mul O (add O (sq (nthT w (fst p))) (sq (nthT w (snd p)))) (diff2 x p)) (upairs nb)))
-          (mul O eps (norm2 x)).
+  Definition qf_weighted (eps : T) (w : list T) (nb : list (list nat)) : list T -> T :=
+    let rw := map sq w in
+    fun x => add O (sumT (map (fun p => mul O (add O (nthT rw (fst p)) (nthT rw (snd p))) (diff2 x p)) (upairs nb)))
+                   (mul O eps (norm2 x)).
   Definition qf_bz (w : list T) (x : list T) : T :=
     sumT (map (fun wx => mul O (sq (fst wx)) (sq (snd wx))) (combine w x)).
   (* split cross: row k (cross point k of pixel k/4, interpolation weights w_l on vertices m_l, as handed to
      reg_split_from) penalises (x_pixel - sum_l w_l x_{m_l})^2 with weight rw_{k/4}^2 *)
   Definition cross_residual (x : list T) (k : nat) (row : list (nat * T)) : T :=
     sub O (xat x (k / 4)) (sumT (map (fun mw => mul O (snd mw) (xat x (fst mw))) row)).
-  Definition qf_split (eps : T) (w : list T) (prows0 : list (list (nat * T))) (x : list T) : T :=
-    add O (sumT (map (fun kr => mul O (sq (nthT w (fst kr / 4))) (sq (cross_residual x (fst kr) (snd kr)))) (indexed prows0)))
-          (mul O eps (norm2 x)).
+  Definition qf_split (eps : T) (w : list T) (prows0 : list (list (nat * T))) : list T -> T :=
+    let rw := map sq w in
+    fun x => add O (sumT (map (fun kr => mul O (nthT rw (fst kr / 4)) (sq (cross_residual x (fst kr) (snd kr)))) (indexed prows0)))
+                   (mul O eps (norm2 x)).
 
   (* quadratic / bilinear form of a matrix, and its polarisation *)
   Definition bil (x : list T) (M : mat) (y : list T) : T :=
@@ -225,11 +227,6 @@ Section Model.
   Definition quad (M : mat) (x : list T) : T := bil x M x.
   Definition unit (n a : nat) : list T := map (fun i => if Nat.eqb i a then one else zero) (seq 0 n).
   Definition vadd (x y : list T) : list T := map (fun p => add O (fst p) (snd p)) (combine x y).
-  (* entry (a, b) of the symmetric matrix that has quadratic form q *)
-  Definition polar (q : list T -> T) (n a b : nat) : T :=
-    if Nat.eqb a b then q (unit n a)
-    else div O (sub O (sub O (q (vadd (unit n a) (unit n b))) (q (unit n a))) (q (unit n b))) two.
-
   (* entry (a, b) of the block-diagonal assembly: locate the blocks of a and b *)
   Fixpoint block_entry (Bs : list mat) (a b : nat) : T :=
     match Bs with
@@ -304,15 +301,15 @@ Definition nb_nat (o : lobj) : list (list nat) :=
 Definition cross_rows (o : lobj) : list (list (nat * Q)) :=
   map (fun a => combine (map Z.to_nat (firstn (snd (fst a)) (fst (fst a)))) (firstn (snd (fst a)) (snd a)))
       (combine (combine (o_smap o) (o_ssizes o)) (o_sw o)).
-Definition scheme_qf (s : scheme) (o : lobj) (x : qv) : Q :=
+Definition scheme_qf (s : scheme) (o : lobj) : qv -> Q :=
   match s with
-  | SConstant c => @qf_constant QOps eps8 c (nb_nat o) x
-  | SConstantZeroth c cz => @qf_constant_zeroth QOps eps8 c cz (nb_nat o) x
-  | SZeroth c => @qf_zeroth QOps c x
-  | SAdaptive i u => @qf_weighted QOps eps8 (@adaptive_weights QOps i u (o_signals o)) (nb_nat o) x
-  | SBrightnessZeroth c => @qf_bz QOps (@brightness_zeroth_weights QOps c (o_signals o)) x
-  | SConstantSplit c => @qf_split QOps eps8 (repeat c (length (o_smap o) / 4)) (cross_rows o) x
-  | SAdaptiveSplit i u => @qf_split QOps eps8 (@adaptive_weights QOps i u (o_signals o)) (cross_rows o) x
+  | SConstant c => let nb := nb_nat o in fun x => @qf_constant QOps eps8 c nb x
+  | SConstantZeroth c cz => let nb := nb_nat o in fun x => @qf_constant_zeroth QOps eps8 c cz nb x
+  | SZeroth c => fun x => @qf_zeroth QOps c x
+  | SAdaptive i u => @qf_weighted QOps eps8 (@adaptive_weights QOps i u (o_signals o)) (nb_nat o)
+  | SBrightnessZeroth c => let w := @brightness_zeroth_weights QOps c (o_signals o) in fun x => @qf_bz QOps w x
+  | SConstantSplit c => @qf_split QOps eps8 (repeat c (length (o_smap o) / 4)) (cross_rows o)
+  | SAdaptiveSplit i u => @qf_split QOps eps8 (@adaptive_weights QOps i u (o_signals o)) (cross_rows o)
   end.
 Definition scheme_size (s : scheme) (o : lobj) : nat :=
   match s with
@@ -358,8 +355,14 @@ Definition scheme_wf (s : scheme) (o : lobj) : bool :=
 Definition square (n : nat) (H : qm) : bool := Nat.eqb (length H) n && forallb (fun r => Nat.eqb (length r) n) H.
 Definition symmetric_close (n : nat) (H : qm) : bool :=
   forallb (fun a => forallb (fun b => close (@mget QOps H a b) (@mget QOps H b a)) (seq 0 n)) (seq 0 n).
+(* H is the symmetric matrix whose quadratic form is q:  H[a,a] = q(e_a),  H[a,b] = (q(e_a + e_b) - q(e_a) - q(e_b)) / 2 *)
 Definition matches_qf (q : qv -> Q) (n : nat) (H : qm) : bool :=
-  forallb (fun a => forallb (fun b => close (@mget QOps H a b) (@polar QOps q n a b)) (seq a (n - a))) (seq 0 n).
+  let d := map (fun a => q (@unit QOps n a)) (seq 0 n) in
+  forallb (fun a =>
+     close (@mget QOps H a a) (nth a d 0) &&
+     forallb (fun b => close (@mget QOps H a b)
+                             (Qred ((q (@vadd QOps (@unit QOps n a) (@unit QOps n b)) - nth a d 0 - nth b d 0) / 2)))
+             (seq (S a) (n - S a))) (seq 0 n).
 
 Inductive case :=
 | KMatrix (s : scheme) (o : lobj) (out : res qm)            (* regularization_matrix_from / the util function *)
